@@ -21,7 +21,7 @@ RULE = ("case = generated enum (gapless / with holes, every repr) x generated le
         "every mode on 9 fixed shapes with the same ascriptions. Oracle: compiles. non-trivial = configuration not among the pinned suite's; distinct by "
         "(configuration, shape, repr)")
 
-PROFILE = S.profile(renames=0.1, dups=0.0, attrs=0.1, sizes=[("small", 95), ("medium", 5)])
+PROFILE = S.profile(renames=0.1, dups=0.0, attrs=0.1, sizes=[("small", 90), ("medium", 5), ("full8", 5)])
 
 
 @st.composite
@@ -106,18 +106,19 @@ def run_small_scope(case):
     from . import common as C
     out = J.Outcome()
     jobs = []
-    for name, r, vals in C.SCOPE_SHAPES + C.SCOPE_SHAPES_EXTRA[:1]:
+    for name, r, vals in C.SCOPE_SHAPES + C.SCOPE_SHAPES_EXTRA:
         spec = C.scope_spec(r, vals)
         m = M.RefEnum(spec)
-        cfgs = C.scope_configs(case["small_scope"], m.gapless)
+        cfgs = C.scope_configs(1 if len(vals) > 100 else case["small_scope"], m.gapless)
         items = []
         for i, c in enumerate(cfgs):
             lines = ascriptions(spec, c)
             body = E.enum_item_text(spec, c) + HELPERS + "    pub fn sig() {\n" + "\n".join("        " + l for l in lines) + "\n    }"
             items.append((i, body))
         out.count("small_scope_configs", len(items))
-        for b in range(0, len(items), 300):
-            jobs.append((name, cfgs, items[b:b + 300]))
+        step = 16 if len(vals) > 100 else 300
+        for b in range(0, len(items), step):
+            jobs.append((name, cfgs, items[b:b + step]))
     with concurrent.futures.ThreadPoolExecutor(max_workers=16) as ex:
         results = list(ex.map(lambda j: (j, C.failing_items(j[2])), jobs))
     for (name, cfgs, _items), bad in results:
